@@ -37,6 +37,7 @@ CONSTANTS NP,         \* physical ports 1..NP
           ModPorts,   \* ports PORT_MOD addresses
           ModOps,     \* [port -> {[mask |-> set of bits, conf |-> set of bits]}]
           BadMods,    \* subset of {"badport", "badhw"}
+          BadOps,     \* what the refused PORT_MODs try to change
           FragModes,  \* values SET_CONFIG may give "drop fragments"
           DropCount,  \* subset of BOOLEAN: is a frame refused at ingress counted as received
           MissLen,    \* miss_send_len
@@ -244,7 +245,7 @@ NextPacketOut == \E ip \in InPorts, s \in OutShapes, A \in OutLists : PacketOut(
 NextPacketOutBuf == \E k \in 1..MaxHeld, A \in BufLists : PacketOutBuf(k, A)
 NextFlowMod == \E A \in FlowLists : FlowMod(A)
 NextPortMod == \E p \in ModPorts : \E op \in ModOps[p] : PortMod(p, op)
-NextPortModBad == \E kind \in BadMods, p \in ModPorts : \E op \in ModOps[p] : PortModBad(kind, p, op)
+NextPortModBad == \E kind \in BadMods, p \in ModPorts, op \in BadOps : PortModBad(kind, p, op)
 NextSetFrag == \E b \in FragModes : SetFrag(b)
 
 Next == \/ NextRx \/ NextPacketOut \/ NextPacketOutBuf \/ NextFlowMod \/ FlowDel
